@@ -566,7 +566,7 @@ def run(tier: str, rng: random.Random, proof_ok: bool) -> dict:
             re_rows = [P(cps(p), P(cps(s), bool(b))) for (p, s), b in zip(getattr(c, "searches", []), getattr(c, "search_res", []))]
             lhs, rhs = coq_line(c, re_rows)
             body.append(f"  chk_eq {i}%nat {lhs} {rhs}.\n")
-        path = os.path.join(GEN, f"cases_C11_{k // per}.v")
+        path = os.path.join(GEN, f"cases_C11_p{os.getpid()}_{k // per}.v")
         open(path, "w").write("".join([HDR, orc.coq(), "Goal True.\n"] + body + ["exact I. Qed.\n"]))
         files.append((path, chunk))
     with ThreadPoolExecutor(max_workers=16) as ex:
